@@ -70,6 +70,7 @@ type Sched struct {
 	bound       int
 	preemptions int
 	mutexes     map[*value]*mutexState
+	wgs         map[*value]*wgState
 	nchan       int
 	engineErr   string
 }
@@ -125,11 +126,12 @@ func (s *Sched) switchAway(g *G) {
 		s.park(g)
 		return
 	}
-	k := 0
-	if s.mode == schedBounded && len(others) > 1 {
-		k = s.m.choose(len(others))
-	}
-	s.wake(others[k])
+	// A switch forced by blocking goes to the next runnable goroutine in
+	// round-robin order in every mode; schedBounded adds choice only at
+	// preemptions (visible).  Forking over every runnable goroutine at every
+	// blocking operation as well multiplies the schedules beyond reach
+	// (measured: > 400 000 paths for one 9-byte frame).
+	s.wake(others[0])
 	s.park(g)
 }
 
@@ -253,11 +255,7 @@ func (s *Sched) spawn(body func(g *G), isMain bool) *G {
 			s.signalDone()
 			return
 		}
-		k := 0
-		if s.mode == schedBounded && len(others) > 1 {
-			k = s.m.choose(len(others))
-		}
-		s.wake(others[k])
+		s.wake(others[0])
 	}()
 	return g
 }
@@ -422,6 +420,49 @@ func (s *Sched) unlock(g *G, p *value, read bool) {
 		w.state = gRunnable
 	}
 	ms.waitq = nil
+}
+
+// ---------------------------------------------------------------- wait groups
+
+type wgState struct {
+	n     int
+	waitq []*G
+}
+
+func (s *Sched) wgOf(p *value) *wgState {
+	if s.wgs == nil {
+		s.wgs = map[*value]*wgState{}
+	}
+	w := s.wgs[p]
+	if w == nil {
+		w = &wgState{}
+		s.wgs[p] = w
+	}
+	return w
+}
+
+func (s *Sched) wgAdd(g *G, p *value, delta int) {
+	s.visible(g)
+	w := s.wgOf(p)
+	w.n += delta
+	if w.n < 0 {
+		panic(targetPanic{v: rtErr("sync: negative WaitGroup counter")})
+	}
+	if w.n == 0 {
+		for _, x := range w.waitq {
+			x.state = gRunnable
+		}
+		w.waitq = nil
+	}
+}
+
+func (s *Sched) wgWait(g *G, p *value) {
+	s.visible(g)
+	w := s.wgOf(p)
+	for w.n > 0 {
+		w.waitq = append(w.waitq, g)
+		s.block(g, "WaitGroup.Wait")
+	}
 }
 
 func (s *Sched) heldBy(p *value) (bool, int) {
